@@ -605,7 +605,7 @@ func C12(tier string) int {
 		"generations_in_a_larger_cluster":   larger,
 		"generations_with_own_passphrases":  ownPass,
 		"generations_over_the_real_grpc_transport": overNet,
-		"vacuous_cells":                     vacuous,
+		"vacuous_cells": vacuous,
 	}
 	run.Assumptions = []string{"the grid, the tampering and the ordering cases run on the in-memory cluster (messages marshalled and handed to the real receiver handlers); services/sender/grpc and TLS between peers are exercised by the 20 generations over the real transport only", "the BLS library is correct"}
 	return run.Finish()
